@@ -44,10 +44,10 @@ func runC14(c *Ctx) []Violation {
 		if c.T.Weighted("c14.src", 1, 2) == 0 {
 			w = pickWorld(c, worldOpts{CorpusWeight: 1})
 			if len(w.Input) > 6000 || len(w.Schema) > 50000 {
-				w = world.Generate(c.T, world.GenOpts{Probe: true, MaxRecs: 8})
+				w = genWorld(c, world.GenOpts{Probe: true, MaxRecs: 8})
 			}
 		} else {
-			w = world.Generate(c.T, world.GenOpts{Probe: true, MaxRecs: 8, Encodings: true})
+			w = genWorld(c, world.GenOpts{Probe: true, MaxRecs: 8, Encodings: true})
 			c.Count("world.format."+w.Format, 1)
 		}
 		worlds = append(worlds, w)
